@@ -48,3 +48,38 @@ fn grl_queries_multibyte_brace() {
 fn parse_duration_huge() {
     no_panic("parse_duration(999999999999999999 min)", || parse_duration("999999999999999999 min").is_ok());
 }
+
+// ---- C05.b stack depth (fixed by ec1e3c6, 2e01a2d, a509626): each of these aborted the process with
+// "thread has overflowed its stack" on Rust's default 2 MiB thread stack before the fixes.
+fn on_default_thread(f: impl FnOnce() + Send + 'static) -> bool {
+    std::thread::Builder::new().spawn(f).unwrap().join().is_ok()
+}
+#[test]
+fn stack_expression_parser_open_paren_chain() {
+    let s = "(".repeat(4096);
+    assert!(on_default_thread(move || {
+        let _ = rust_rule_engine::backward::expression::ExpressionParser::parse(&s);
+    }));
+}
+#[test]
+fn stack_expression_parser_bang_chain() {
+    let s = format!("{}x", "!".repeat(4095));
+    assert!(on_default_thread(move || {
+        let _ = rust_rule_engine::backward::expression::ExpressionParser::parse(&s);
+    }));
+}
+#[test]
+fn stack_arithmetic_plus_chain() {
+    let s = format!("1{}", "+1".repeat(2047));
+    assert!(on_default_thread(move || {
+        let f = rust_rule_engine::engine::facts::Facts::new();
+        let _ = rust_rule_engine::expression::evaluate_expression(&s, &f);
+    }));
+}
+#[test]
+fn stack_grl_bang_chain() {
+    let s = format!("rule \"a\" {{ when {}x == 1 then y = 1; }}", "!".repeat(4000));
+    assert!(on_default_thread(move || {
+        let _ = rust_rule_engine::parser::grl::GRLParser::parse_rules(&s);
+    }));
+}
